@@ -559,7 +559,8 @@ def iter_cells(hist, ranges=None, coord_ranges=None):
     bins, edges = hist.bins, hist.edges
     # todo: hist.edges must be same
     # for 1- and multidimensional histograms.
-    if hist.dim == 1:
+    if not hasattr(edges[0], '__iter__'):
+        # one-dimensional edges given as a sequence of numbers
         edges = (edges,)
 
     if coord_ranges is not None:
